@@ -31,3 +31,38 @@ func devAsm() {
 		fmt.Printf("stderr: %s\n", r.Stderr)
 	}
 }
+
+// devPool: assemble many single pool statements and list the ones gosk refuses.
+func devPool() {
+	env, err := NewEnv("quick", 0, false)
+	if err != nil {
+		fmt.Println(err)
+		os.Exit(2)
+	}
+	defer env.Close()
+	env.InitBaseline()
+	r := NewRand(1, "devpool")
+	var reqs []Req
+	var stmts []PStmt
+	var modes []int
+	for i := 0; i < 6000; i++ {
+		mode := 16 + 16*(i%2)
+		s := poolStmt(r, mode)
+		c := &ConcatCase{Mode: mode}
+		reqs = append(reqs, Req{Src: c.src([]PStmt{s})})
+		stmts = append(stmts, s)
+		modes = append(modes, mode)
+	}
+	rs := env.Pool.RunAll(reqs)
+	seen := map[string]int{}
+	for i := range rs {
+		if ok, why := env.accepted(&rs[i]); !ok {
+			k := fmt.Sprintf("m%d %s", modes[i], stmtKindOf(stmts[i]))
+			seen[k]++
+			if seen[k] <= 2 {
+				fmt.Printf("%s :: %s :: %s\n", k, stmts[i].Line(), oneLine(why, 120))
+			}
+		}
+	}
+	fmt.Println(seen)
+}
